@@ -417,7 +417,12 @@ fn maybe_create_scmp_reply(
         .context("can't classify SCION packet for SCMP response")?;
 
     match classify {
-        ClassifiedPacketView::Scmp(scmp_view) if scmp_view.scmp().message().is_error() => {
+        // SCMP types below 128 are error messages, including the types without a dedicated model
+        // (`ScmpMessageView::Unknown`), which `is_error()` does not cover.
+        ClassifiedPacketView::Scmp(scmp_view)
+            if scmp_view.scmp().message().is_error()
+                || u8::from(scmp_view.scmp().message_type()) < 128 =>
+        {
             // Don't reply to SCMP Error Messages
             return Ok(None);
         }
